@@ -844,7 +844,7 @@ ASM_CONF = ["conf-accept", "conf-err", "conf-blocks", "conf-sym"]
 @check("C01")
 def c01(run):
     run.mc_leg("mc_asm", "MC_Asm", "MC_Asm5.cfg" if run.tier == "thorough" else "MC_Asm.cfg", workers=16, timeout=3000)
-    run.rec_leg("asm", ["asm", "faults=25"], verdict=["panic", "image", "labels", "extflag", "wf-rejected", "unknown-event"])
+    run.rec_leg("asm", ["asm", "faults=25"], verdict=["panic", "written", "image", "labels", "extflag", "wf-rejected", "unknown-event"])
     return run.finish(
         rule="generated programs (every opcode and alias, operands at and inside field limits, label operands forward and "
              "backward incl. offsets exactly at the 9- and 11-bit limits, .fill/.stringz/.blkw, 1-4 blocks placed from x0000 "
@@ -854,7 +854,8 @@ def c01(run):
              "words = Isa!Encode after alias expansion, label operand = label address - (address + 1)) and LabelSpec from "
              "the parsed statements and requires the object's image (set of address/word pairs, so nothing else is "
              "defined) and the label table to be equal",
-        level_note="the statement list is the real parser's output (C03 decides the parser); block partition and the exact "
+        level_note="the statement list is the real parser's output, required to equal the generator's intent (`written`; C03 "
+                   "decides the parser against the grammar of the specification); block partition and the exact "
                    "object record are compared with the operational transcription Asm!Assemble as drift only")
 
 
@@ -952,13 +953,20 @@ def c22(run):
 def c17(run):
     run.rec_leg("link", ["link"], verdict=["panic", "rt-bin", "unknown-event"])
     run.rec_leg("asm_rt", ["rt", "fmt=bin"], verdict=["panic", "rt-bin", "unknown-event"])
+    run.mc_leg("mc_objformat", "MC_ObjFormat", "MC_ObjFormat3.cfg" if run.tier == "thorough" else "MC_ObjFormat.cfg", workers=16, timeout=3000)
+    run.rec_leg("fmt", ["fmt"], spec="TV_Fmt", cfg="TV_Fmt.cfg", verdict=["panic", "fmt-roundtrip", "unknown-event"])
     return run.finish(
         rule="every object of the link sets (assembled files with and without debug symbols, with externals and relocation "
              "entries, .blkw regions, several blocks; every intermediate and final link result) and of generated single "
              "programs with exotic source text is written by BinaryFormat::serialize and read back; TLC requires the reader to "
              "accept, the crate's own == to hold and the projection of the result (blocks, labels with flags and source "
-             "offsets, relocation entries, line table, source bytes) to equal the projection of the original",
-        level_note="the byte grammar itself is not transcribed (DESIGN.md section 8)")
+             "offsets, relocation entries, line table, source bytes) to equal the projection of the original.  The byte "
+             "grammar is the specification ObjFormat (reader BinRead, writer BinWrite over any order of the hash-map tables, "
+             "64-bit quantities as 16-bit limbs): MC_ObjFormat proves the round trip for a universe of objects and all table "
+             "orders inside the specification; the fmt leg gives the real writer's bytes of assembled and linked objects to "
+             "BinRead (WrittenForView: reads back as the object, one chunk per item, chunks in order) and requires the real "
+             "reader to give the object back (==)",
+        level_note="agreement of the real writer/reader with ObjFormat beyond the round trip is conformance (drift)")
 
 
 @check("C18")
@@ -975,6 +983,8 @@ def c18(run):
 @check("C19")
 def c19(run):
     run.rec_leg("untrusted", ["untrusted"], verdict=["panic", "load-kind", "unknown-event"], heap="16g")
+    run.mc_leg("mc_objformat", "MC_ObjFormat", "MC_ObjFormat3.cfg" if run.tier == "thorough" else "MC_ObjFormat.cfg", workers=16, timeout=3000)
+    run.rec_leg("fmt", ["fmt"], spec="TV_Fmt", cfg="TV_Fmt.cfg", verdict=["panic", "unknown-event"])
     return run.finish(
         rule="inputs to BinaryFormat::deserialize and TextFormat::deserialize: random bytes/texts (with and without the magic "
              "header), byte- and line-level mutations of valid serializations (truncation, duplication, lengths, dividers, "
@@ -986,7 +996,11 @@ def c19(run):
              "both formats and read back, loaded into a simulator and stepped, queried (rev_lookup_line, read_line, "
              "get_label_source), and linked with three assembled partners in both orders and with itself, and every successful "
              "link result is used again the same way; everything under catch_unwind, a panic anywhere rejects the record; the "
-             "link outcomes are also compared with the total operator Linker!Link on the abstract objects",
+             "link outcomes are also compared with the total operator Linker!Link on the abstract objects.  For the binary "
+             "format the reader is specified (ObjFormat!BinRead, total: MC_ObjFormat evaluates it on every file of up to "
+             "two or three chunks cut at any length with one byte replaced, and shows that whatever it accepts is written and "
+             "read back equal); the fmt leg compares the real reader with it on random, mutated and adversarially "
+             "structured files (accept/reject and the object built) and the real writer's output for every accepted object",
         level_note="agreement with Linker!Link on malformed objects is conformance (drift); harness profile has overflow checks on")
 
 
